@@ -49,7 +49,7 @@ enum Kind {
     Match { arms: Vec<Rng> },
     Let { name: Option<String> },
     Stmt,
-    Call { name: String },
+    Call { name: String, args: Vec<Rng> },
     Assign { lhs: String },
     LogStmt,
     TupleAssign { elems: Vec<String>, rhs: String },
@@ -160,13 +160,15 @@ impl<'ast, 's> Visit<'ast> for Collect<'s> {
     fn visit_expr_call(&mut self, n: &'ast syn::ExprCall) {
         if let syn::Expr::Path(p) = &*n.func {
             if let Some(last) = p.path.segments.last() {
-                self.push(Kind::Call { name: last.ident.to_string() }, rng(n));
+                let args = n.args.iter().map(|a| rng(a)).collect();
+                self.push(Kind::Call { name: last.ident.to_string(), args }, rng(n));
             }
         }
         visit::visit_expr_call(self, n);
     }
     fn visit_expr_method_call(&mut self, n: &'ast syn::ExprMethodCall) {
-        self.push(Kind::Call { name: n.method.to_string() }, rng(n));
+        let margs = n.args.iter().map(|a| rng(a)).collect();
+        self.push(Kind::Call { name: n.method.to_string(), args: margs }, rng(n));
         if n.method == "borrow_mut" && n.args.is_empty() {
             if let syn::Expr::Index(_) = &*n.receiver {
                 self.push(Kind::BorrowMutIdx { recv: rng(&*n.receiver) }, rng(n));
@@ -450,7 +452,7 @@ fn resolve(loc: &Located, path: &str, what: &str) -> Result<Res, String> {
             cur = Some(nd.clone());
         } else if let Some((name, n)) = parse_fn_ord(p, "ifcall") {
             // the n-th `if` in scope whose condition calls `name`
-            let calls: Vec<Rng> = loc.nodes.iter().filter(|x| matches!(&x.kind, Kind::Call { name: c } if *c == name)).map(|x| x.r).collect();
+            let calls: Vec<Rng> = loc.nodes.iter().filter(|x| matches!(&x.kind, Kind::Call { name: c, .. } if *c == name)).map(|x| x.r).collect();
             let v = within(&loc.nodes, scope, &|k| match k {
                 Kind::If { cond, .. } => calls.iter().any(|c| cond.contains(c)),
                 _ => false,
@@ -518,13 +520,25 @@ fn resolve(loc: &Located, path: &str, what: &str) -> Result<Res, String> {
             cur_stmt = Some(nd.r);
             cur = Some(nd.clone());
         } else if let Some((name, n)) = parse_fn_ord(p, "call") {
-            let v = within(&loc.nodes, scope, &|k| matches!(k, Kind::Call { name: x } if *x == name));
+            let v = within(&loc.nodes, scope, &|k| matches!(k, Kind::Call { name: x, .. } if *x == name));
             let nd = match v.get(n) {
                 Some(x) => *x,
                 None => nf!(),
             };
             cur_stmt = enclosing_stmt(&loc.nodes, nd.r);
             cur = Some(nd.clone());
+        } else if let Some(n) = parse_ord(p, "arg") {
+            // the n-th argument expression of the call selected before
+            match &cur {
+                Some(Node { kind: Kind::Call { args, .. }, .. }) => {
+                    scope = match args.get(n) {
+                        Some(x) => *x,
+                        None => nf!(),
+                    };
+                    cur = Some(Node { kind: Kind::Block, r: scope });
+                }
+                _ => nf!(),
+            }
         } else if let Some((lhs, n)) = parse_fn_ord(p, "assign") {
             let want = norm(&lhs);
             let v = within(&loc.nodes, scope, &|k| matches!(k, Kind::Assign { lhs: x } if *x == want));
